@@ -279,6 +279,167 @@ pub fn parse_subs() -> Vec<Sub> {
     ]
 }
 
+// ------------------------------------------------------------------ long tracker outages (virtual time)
+
+#[derive(Clone, Debug, Serialize, Deserialize)]
+pub struct OutageCase {
+    /// consecutive failed announces before the tracker answers well
+    pub fails: u16,
+    /// which kind of failure each announce meets
+    pub kinds: u64,
+}
+
+fn outage_strategy() -> BoxedStrategy<OutageCase> {
+    (
+        prop_oneof![
+            3 => 0u16..12,
+            3 => prop::sample::select(vec![15u16, 16, 17, 30, 31, 32, 33, 62, 63, 64, 65, 66, 100, 127, 128, 129, 200, 255, 256, 257, 300]),
+            1 => 0u16..400,
+        ],
+        any::<u64>(),
+    )
+        .prop_map(|(fails, kinds)| OutageCase { fails, kinds })
+        .boxed()
+}
+
+/// The real TrackerClient::run against a loopback HTTP tracker on a runtime with a paused clock (the client's retry pauses
+/// cost no real time, so outages of hundreds of announces are affordable): after `fails` failed announces of mixed kinds
+/// the good reply must still be fetched and delivered, and the tracker task must not have died meanwhile.
+pub fn check_outage(c: &OutageCase) -> Outcome {
+    use tokio::io::{AsyncReadExt, AsyncWriteExt};
+    let mut o = Outcome::new();
+    o.nontrivial = c.fails >= 3;
+    o.class_if(c.fails >= 3, "outage>=3-announces");
+    o.class_if(c.fails >= 64, "outage>=64-announces");
+    o.class_if(c.fails == 0, "no-outage");
+    let c = c.clone();
+    let rt = tokio::runtime::Builder::new_current_thread().enable_all().start_paused(true).build().expect("runtime");
+    let res = catch(|| {
+        rt.block_on(async {
+            let listener = tokio::net::TcpListener::bind("127.0.0.1:0").await.map_err(|e| e.to_string())?;
+            let port = listener.local_addr().unwrap().port();
+            let url = format!("http://127.0.0.1:{}/announce", port);
+            let torrent = format!("d8:announce{}:{}4:infod6:lengthi222e4:name4:NAME12:piece lengthi111e6:pieces40:AAAAABBBBBCCCCCDDDDDAAAAABBBBBCCCCCDDDDDee", url.len(), url);
+            let m = rdest::Metainfo::from_bencode(torrent.as_bytes()).map_err(|e| format!("metainfo: {}", e))?;
+            let good = b"d8:intervali1800e5:peersld2:ip9:127.0.0.17:peer id20:-XX0001-aaaaaaaaaaaa4:porti50001eed2:ip8:10.1.2.37:peer id20:-XX0001-bbbbbbbbbbbb4:porti6881eeee".to_vec();
+            let fails = c.fails as usize;
+            let kinds = c.kinds;
+            let server = tokio::spawn(async move {
+                let mut served = 0usize;
+                loop {
+                    let (mut s, _) = match listener.accept().await {
+                        Ok(x) => x,
+                        Err(_) => return served,
+                    };
+                    let mut head = vec![];
+                    let mut tmp = [0u8; 2048];
+                    while !head.windows(4).any(|w| w == b"\r\n\r\n") {
+                        match s.read(&mut tmp).await {
+                            Ok(0) | Err(_) => break,
+                            Ok(n) => head.extend_from_slice(&tmp[..n]),
+                        }
+                    }
+                    let http = |status: &str, body: &[u8]| {
+                        let mut v = format!("HTTP/1.1 {}\r\nContent-Length: {}\r\nConnection: close\r\n\r\n", status, body.len()).into_bytes();
+                        v.extend_from_slice(body);
+                        v
+                    };
+                    let reply: Option<Vec<u8>> = if served >= fails {
+                        Some(http("200 OK", &good))
+                    } else {
+                        match (kinds >> ((served % 16) * 4)) & 7 {
+                            0 | 1 => Some(http("503 Service Unavailable", b"")),
+                            2 => Some(http("500 Internal Server Error", b"oops")),
+                            3 => Some(http("200 OK", b"<html>not bencode</html>")),
+                            4 => Some(http("200 OK", b"d14:failure reason12:try it latere")),
+                            // (cut inside a string, not at a container boundary: unterminated containers at the end of
+                            // input are the known finding of C16 and would be read as a reply without peers)
+                            5 => Some(http("200 OK", b"d8:intervali1800e5:pee")),
+                            6 => Some(b"HTTP/1.1 200 OK\r\nContent-Length: 500\r\n\r\nd8:interval".to_vec()),
+                            _ => None,
+                        }
+                    };
+                    served += 1;
+                    if let Some(r) = reply {
+                        let _ = s.write_all(&r).await;
+                    }
+                    let _ = s.shutdown().await;
+                }
+            });
+            let (tx, mut rx) = tokio::sync::mpsc::channel(64);
+            let mut client = rdest::TrackerClient::new(b"-VF0001-ownownownown", m, tx);
+            let job = tokio::spawn(async move { client.run().await });
+            let start = tokio::time::Instant::now();
+            // No virtual-time limit (a paused clock jumps to the next timer whenever every task waits, also while a
+            // loopback reply is on its way): the wait ends when the reply is delivered, when the tracker task is gone,
+            // or after 120 s of real time (hundreds of loopback announces take well under a second).
+            let done = std::sync::Arc::new(std::sync::atomic::AtomicBool::new(false));
+            let (wtx, mut wrx) = tokio::sync::mpsc::channel::<()>(1);
+            {
+                let done = done.clone();
+                std::thread::spawn(move || {
+                    for _ in 0..1200 {
+                        std::thread::sleep(std::time::Duration::from_millis(100));
+                        if done.load(std::sync::atomic::Ordering::Relaxed) {
+                            return;
+                        }
+                    }
+                    let _ = wtx.blocking_send(());
+                });
+            }
+            let mut reported = 0usize;
+            let mut resp = None;
+            loop {
+                tokio::select! {
+                    cmd = rx.recv() => match cmd {
+                        Some(rdest::verif::TrackerCmd::Fail(_)) => reported += 1,
+                        Some(rdest::verif::TrackerCmd::TrackerResp(r)) => {
+                            resp = Some(r);
+                            break;
+                        }
+                        None => break,
+                    },
+                    _ = wrx.recv() => break,
+                }
+            }
+            done.store(true, std::sync::atomic::Ordering::Relaxed);
+            let elapsed = start.elapsed();
+            let job_state = if job.is_finished() {
+                match job.await {
+                    Ok(()) => "ended".to_string(),
+                    Err(e) if e.is_panic() => format!("panicked ({})", take_last_panic().unwrap_or_default()),
+                    Err(_) => "cancelled".to_string(),
+                }
+            } else {
+                job.abort();
+                "running".to_string()
+            };
+            server.abort();
+            let peers = resp.map(|r| r.peers());
+            Ok::<_, String>((peers, reported, elapsed, job_state))
+        })
+    });
+    drop(rt);
+    match res {
+        Err(p) => o.fail(panic_signature(&p), format!("panic: {}", p)),
+        Ok(Err(e)) => o.fail("harness-wire-error", e),
+        Ok(Ok((peers, reported, elapsed, job_state))) => match peers {
+            None => o.fail(
+                "good-reply-after-outage-not-delivered",
+                format!("the tracker failed {} announces and would have answered well afterwards; {} failures were reported, then nothing for {:?} of virtual time; tracker task {}", c.fails, reported, elapsed, job_state),
+            ),
+            Some(p) => {
+                let got: Vec<(String, Vec<u8>)> = p.iter().map(|(a, id)| (a.clone(), id.to_vec())).collect();
+                let want = vec![("127.0.0.1:50001".to_string(), b"-XX0001-aaaaaaaaaaaa".to_vec()), ("10.1.2.3:6881".to_string(), b"-XX0001-bbbbbbbbbbbb".to_vec())];
+                if got != want {
+                    o.fail("good-reply-after-outage-misread", format!("after {} failed announces the good reply was read as {:?}", c.fails, got));
+                }
+            }
+        },
+    }
+    o
+}
+
 #[derive(Clone, Debug, Serialize, Deserialize)]
 pub struct RawCase {
     pub bytes: Vec<u8>,
@@ -287,11 +448,18 @@ pub struct RawCase {
 pub fn def() -> PropDef {
     PropDef {
         id: "C19",
-        rule: "sub replies: a model tracker reply (interval, 0-30 peer entries mixing well-formed dictionaries - UTF-8 ip, 20-byte id, port 0..65535 - with malformed ones: missing key, wrong type, 0/1/19/21/40-byte id, negative port, non-UTF-8 ip, non-dictionary; extra keys, rotated key order, optional UTF-8 failure reason, optional trailing values) written by the reference writer; oracle: no panic, peers() == the well-formed entries in order as ip:port with ids, failure reason => Err(TrackerRespFail(reason)). Sub totality: mutated replies and arbitrary bytes never panic. Sub faults: see DESIGN.md C19(b). Non-trivial (replies) = a malformed entry between two good ones or a failure reason; distinct by hash of the case.",
+        rule: "sub replies: a model tracker reply (interval, 0-30 peer entries mixing well-formed dictionaries - UTF-8 ip, 20-byte id, port 0..65535 - with malformed ones: missing key, wrong type, 0/1/19/21/40-byte id, negative port, non-UTF-8 ip, non-dictionary; extra keys, rotated key order, optional UTF-8 failure reason, optional trailing values) written by the reference writer; oracle: no panic, peers() == the well-formed entries in order as ip:port with ids, failure reason => Err(TrackerRespFail(reason)). Sub totality: mutated replies and arbitrary bytes never panic. Sub faults: see DESIGN.md C19(b). Sub outage: the real TrackerClient::run against a loopback HTTP tracker under a paused clock; 0-400 consecutive failed announces (503, 500, non-bencode, failure reason, truncated bencode, body shorter than its Content-Length, connection closed) with counts around 16/32/64/128/256, then a good reply: it must be delivered with exactly the listed peers and the tracker task must still be alive. Non-trivial (replies) = a malformed entry between two good ones or a failure reason; distinct by hash of the case.",
         assumptions: &["ports above 65535 and non-UTF-8 failure reasons are not generated (the property does not say how they are read)"],
         subs: {
             let mut s = parse_subs();
             s.push(crate::e2e::c19_faults_sub());
+            s.push(Sub {
+                name: "outage",
+                cases: |t| t.pick(480, 6_000),
+                run: |ctx| run_proptest(ctx, "outage", outage_strategy(), check_outage),
+                replay: |v| replay_case::<OutageCase>(v, check_outage),
+                min_class: &[("outage>=3-announces", 0.3), ("outage>=64-announces", 0.1)],
+            });
             s.push(Sub {
                 name: "raw",
                 cases: |_| 0,
